@@ -143,7 +143,13 @@ fn check_segment(mode: GameMode, kind: SplineType, seg: &[PathControlPoint]) -> 
                     Some(arc) => {
                         if path == bez_path {
                             // a fallback is legitimate only for (nearly) collinear or enormous arcs
-                            if cr.abs() < 1.0 || arc.length() >= 100_000.0 {
+                            // "collinear" is decided by the crate on an f32 cross product: with coordinates of
+                            // magnitude S the two products carry an absolute rounding error of up to ~2^-23 * |dy*dx|
+                            // each (plus the rounding of the differences), so a triple whose exact cross product is
+                            // below that error may legitimately count as collinear
+                            let prod = ((v[1].1 - v[0].1) * (v[2].0 - v[0].0)).abs() + ((v[1].0 - v[0].0) * (v[2].1 - v[0].1)).abs();
+                            let collinear_in_f32 = cr.abs() <= 16.0 * 2f64.powi(-24) * (prod + scale * scale * 2f64.powi(-20)) + 1e-6;
+                            if collinear_in_f32 || arc.length() >= 100_000.0 {
                                 let g = bezier_geo(&v);
                                 let (d1, d2) = (directed(&pathp, &g.exact, g.bound), directed(&g.exact, &pathp, g.bound));
                                 if d1.max(d2) > g.bound {
